@@ -6,6 +6,8 @@ import os
 import shutil
 import subprocess
 
+REPO = os.environ.get("VERIF_REPO", "/repo").rstrip("/")
+
 HEAD = """#![allow(dead_code)]
 use ssz_derive::{Decode, Encode};
 """
@@ -63,8 +65,8 @@ edition = "2021"
 [workspace]
 
 [dependencies]
-ethereum_ssz = { path = "/repo/ssz" }
-ethereum_ssz_derive = { path = "/repo/ssz_derive" }
+ethereum_ssz = { path = "REPOPLACEHOLDER/ssz" }
+ethereum_ssz_derive = { path = "REPOPLACEHOLDER/ssz_derive" }
 """
 
 
@@ -78,8 +80,8 @@ def run(root, env, tier, out_path):
             continue
         d = os.path.join(base, name)
         os.makedirs(os.path.join(d, "src"), exist_ok=True)
-        open(os.path.join(d, "Cargo.toml"), "w").write(CARGO % name)
-        shutil.copyfile("/repo/Cargo.lock", os.path.join(d, "Cargo.lock"))
+        open(os.path.join(d, "Cargo.toml"), "w").write((CARGO % name).replace("REPOPLACEHOLDER", REPO))
+        shutil.copyfile(REPO + "/Cargo.lock", os.path.join(d, "Cargo.lock"))
         open(os.path.join(d, "src", "lib.rs"), "w").write(HEAD + src)
         p = subprocess.run(["cargo", "check", "--offline", "--quiet"], cwd=d, env=dict(env, CARGO_TARGET_DIR=target),
                            stdout=subprocess.PIPE, stderr=subprocess.STDOUT, text=True, errors="replace", timeout=1800)
